@@ -43,10 +43,118 @@ def run_family(ctx, fam, module, gen_cfgs, judge, rand_n=0, a_cfgs=(), exec_time
     trace_path = os.path.join(d, "trace.ndjson")
     p = vlib.gvh(ctx, ["exec", "--family", fam, "--in", cases_path, "--out", trace_path], timeout=exec_timeout)
     log("[exec] %s: %s" % (fam, p.stdout.strip().splitlines()[-1] if p.stdout.strip() else ""))
+    if getattr(ctx, "selftest", False):
+        _corrupt_one(ctx, fam, trace_path)
     bad, stats = vlib.tlc_judge(ctx, judge, judge + ".cfg", trace_path, shard=shard, by_history=by_history)
     trace = vlib.read_ndjson(trace_path)
     return {"trace": trace, "bad": bad, "stats": stats, "n_cases": len(cases), "family": fam,
             "cases": {c["id"]: c["case"] for c in cases}}
+
+
+# ---- binding demonstration (bin/check <ID> --selftest): flip ONE recorded observation per family and require the judge to
+# report exactly that line - the anti-vacuity test of Loop C (DESIGN.md section 2, "Binding demonstrations")
+
+def _flip(fam, r, prop):
+    o = r["obs"]
+    if fam == "camel":
+        if not o["words"]:
+            return False
+        o["words"][0] = o["words"][0][:-1]
+    elif fam == "template":
+        if o["panicked"]:
+            return False
+        o["out"] = o["out"] + [120]
+    elif fam == "typeref":
+        if o["parse_err"] or o["panicked"]:
+            return False
+        o["printed"] = o["printed"] + ["x"]
+    elif fam == "tracker":
+        if not o["steps"] or not o["steps"][-1]["imports"]:
+            return False
+        o["steps"][-1]["imports"][0]["name"] = "type"
+    elif fam == "comments":
+        if r["case"]["part"] != "layout" or not o.get("decls"):
+            return False
+        o["decls"][0]["doc_lines"] = o["decls"][0]["doc_lines"] + ["not in the source"]
+    elif fam == "pipeline":
+        if r["case"]["step"]["op"] != "run" or o.get("failed") or o.get("died"):
+            return False
+        if prop == "C02":
+            if not o["calls"]:
+                return False
+            o["calls"][0]["sum_same"] = False
+        elif prop in ("C04", "C05"):
+            tc = [c for c in o["calls"] if c["kind"] == "type"]
+            if len(tc) < 2:
+                return False
+            i = o["calls"].index(tc[0])
+            j = o["calls"].index(tc[1])
+            o["calls"][i], o["calls"][j] = o["calls"][j], o["calls"][i]
+        elif prop == "C08":
+            if not r["case"]["step"]["all"] or not o["post"]["sum_lines"]:
+                return False
+            o["post"]["sum_lines"][0][1] = "h1:bogus"
+        else:
+            o["changes"] = o["changes"] + [{"path": "p/user.go", "pkg": "p", "base": "user.go", "base_dot": False, "is_sum": False, "how": "modified"}]
+    elif fam == "dispatch":
+        if not o["calls"]:
+            return False
+        o["calls"] = o["calls"][:-1]
+    elif fam == "universe":
+        o["types"] = o["types"] + ["NotInScope"]
+    elif fam == "results":
+        if o["declared_n"] == 0 or o["fatal"] or o["timeout"] or o["panicked"]:
+            return False
+        o["lens"] = []
+    elif fam == "genfile":
+        if not o["written"]:
+            return False
+        if prop == "C03":
+            o["import_paths"] = o["import_paths"] + ["made/up"]
+        else:
+            o["gofmt_fixed"] = not o["gofmt_fixed"]
+    elif fam == "typelit":
+        o["got"] = "int" if o["got"] != "int" else "string"
+    elif fam == "valuelit":
+        if not o["ran"]:
+            return False
+        o["canon_got"] = o["canon_got"] + "x"
+    elif fam == "runtimedoc":
+        if not o["has_method"]:
+            return False
+        o["type_doc"] = {"lines": o["type_doc"]["lines"], "ok": not o["type_doc"]["ok"]}
+    elif fam == "deepcopy":
+        if not o["ran"]:
+            return False
+        o["aliased"] = ["made.up"]
+    elif fam == "partial":
+        if not o["ran"]:
+            return False
+        o["nil_to_nil"] = not o["nil_to_nil"]
+    elif fam == "inflect":
+        if r["case"]["kind"] == "conc" or o["panicked"]:
+            return False
+        o["again"] = not o["again"]
+    elif fam == "sumfile":
+        if not o["loaded"]:
+            return False
+        o["loaded"] = o["loaded"][:-1]
+    else:
+        return False
+    return True
+
+
+def _corrupt_one(ctx, fam, trace_path):
+    recs = vlib.read_ndjson(trace_path)
+    start = (ctx.seed * 7919) % max(1, len(recs))
+    for k in range(len(recs)):
+        r = recs[(start + k) % len(recs)]
+        if _flip(fam, r, ctx.prop):
+            vlib.write_ndjson(trace_path, recs)
+            ctx.corrupted = getattr(ctx, "corrupted", []) + [(fam, r["id"])]
+            log("[selftest] %s: corrupted one observation of trace line id=%s" % (fam, r["id"]))
+            return
+    raise Infra("selftest: no line of family %s could be corrupted" % fam)
 
 
 def replay(ctx, path):
